@@ -699,4 +699,75 @@ theorem status_405_iff (f : Nat) (t : Table) (q : Req) (hp : StartsSL q.path) (h
     simp only [List.nil_append, hne']
     exact ⟨_, rfl⟩
 
+
+/-! ## url_for and resolution are inverse -/
+
+/-- the path obtained by substituting the (decoded) values `ws` into the pattern, in order -/
+def render : List Part → Dict → Str
+  | [], _ => []
+  | .lit l :: ps, ws => l ++ render ps ws
+  | .var _ _ _ :: ps, w :: ws => w.2 ++ render ps ws
+  | .var _ _ _ :: _, [] => []
+
+/-- `ws` supplies, in order, one value per variable; each value is non-empty (as long as the
+variable's minimal length), lies in the variable's character class, and is followed in the
+rendered path by the end or by a character outside the class (for `{v}` between slashes: the `/`). -/
+inductive Fits : List Part → Dict → Prop
+  | nil : Fits [] []
+  | lit {l ps ws} : Fits ps ws → Fits (.lit l :: ps) ws
+  | var {n rs mn ps w ws} : Fits ps ws → w ≠ [] → mn ≤ w.length → (∀ c ∈ w, inRanges rs c = true) →
+      (render ps ws = [] ∨ ∃ c t, render ps ws = c :: t ∧ inRanges rs c = false) →
+      Fits (.var n rs mn :: ps) ((n, w) :: ws)
+
+theorem runLen_append (rs : List (Nat × Nat)) (w rest : Str) (hw : ∀ c ∈ w, inRanges rs c = true)
+    (hr : rest = [] ∨ ∃ c t, rest = c :: t ∧ inRanges rs c = false) :
+    runLen rs (w ++ rest) = w.length := by
+  induction w with
+  | nil =>
+    rcases hr with rfl | ⟨c, t, rfl, hc⟩
+    · rfl
+    · simp [runLen, hc]
+  | cons a w ih =>
+    have ha := hw a (List.mem_cons_self ..)
+    simp only [List.cons_append, runLen, ha, if_true, List.length_cons]
+    rw [ih (fun c hc => hw c (List.mem_cons_of_mem _ hc))]
+
+/-- the pattern matcher recovers exactly the substituted values -/
+theorem match_render (ps : List Part) (ws : Dict) (h : Fits ps ws) :
+    matchFrom ps (render ps ws) = some ws := by
+  induction h with
+  | nil => simp [matchFrom, render]
+  | @lit l ps ws _ ih =>
+    simp only [matchFrom, render, isPrefix_append_self, if_true, List.drop_left]
+    exact ih
+  | @var n rs mn ps w ws _ hne hmn hin hnext ih =>
+    simp only [matchFrom, render]
+    rw [runLen_append rs w _ hin hnext]
+    cases hl : w.length with
+    | zero => exact absurd (List.length_eq_zero_iff.mp hl) hne
+    | succ m =>
+      simp only [tryLen]
+      have h1 : ¬ (m + 1 < mn) := by omega
+      simp only [h1, if_false]
+      rw [← hl, List.drop_left, List.take_left, ih]
+
+/-- **urlfor_resolve_inverse (partial).** If the decoded request path is the formatter with the
+values `ws` substituted (which is what yarl's `path_safe` of the `url_for` result is, by the
+quoting laws that the harness checks on the real library), and each value fits its variable
+(`Fits`: non-empty, inside the variable's class — for `{v}`: free of `/`, `{`, `}` — and
+delimited by the next literal), then `DynamicResource._match` returns exactly the values,
+each passed through `_unquote_path_safe`.
+
+*partial*: the round trip through yarl (`_unquote_path_safe (path_safe (_quote_path v)) = v`, and
+`path_safe` distributing over the formatter) is a hypothesis about the un-modelled library, and
+literals that re-quoting changes are excluded (finding F12: for them the inverse fails). -/
+theorem urlfor_resolve_inverse_partial (ps : List Part) (ws : Dict) (h : Fits ps ws) :
+    dynMatch ps (render ps ws) = some (ws.map (fun kv => (kv.1, unquoteSafe kv.2))) := by
+  simp [dynMatch, match_render ps ws h]
+
+/-- values without `%` come back unchanged -/
+theorem unquoteSafe_id (v : Str) (h : v.contains PCT = false) : unquoteSafe v = v := by
+  unfold unquoteSafe
+  rw [h]; rfl
+
 end Aio.C14
